@@ -854,6 +854,19 @@ impl ColumnStore {
         proof { axiom_string_keys::<ColumnId>(); }
 //@end
 
+//@fn ColumnStore::get_column ret=r
+//@replace "|&ColumnId(slot)|" => "|id__r|" :: R2: a by-reference destructuring closure parameter is taken by name (ColumnId is Copy; its one field is read as id__r.0)
+//@replaceall "slot as usize" => "id__r.0 as usize" :: same
+//@closure and_then#1 (id__r: &ColumnId) -> (o: Option<&Column>) ensures o == (if (id__r.0 as int) < self.columns@.len() { Some(&self.columns@[id__r.0 as int]) } else { None })
+//@requires
+        self.wf(),
+//@ensures
+        r.is_some() == self.index@.contains_key(str_key(key)),                                                //#some_iff_column_exists
+        r matches Some(c) ==> *c == self.columns@[self.index@[str_key(key)].0 as int],                        //#is_the_named_column
+//@atstart
+        proof { axiom_string_keys::<ColumnId>(); }
+//@end
+
 //@fn ColumnStore::get_by_id ret=r
 //@requires
         self.wf(),
